@@ -1005,7 +1005,25 @@ func (x *FnExec) loopEnv(b *ssa.BasicBlock, st *State, phiVal func(*ssa.Phi) Val
 	for n := range phis {
 		delete(env.vars, n)
 	}
+	x.unshadowSpilledParams(env)
 	return env
+}
+
+// unshadowSpilledParams: a parameter the function reassigns lives in a stack cell; inside
+// the body (loop clauses, call-site assertions) its name means the current content, and
+// name0 the entry value.
+func (x *FnExec) unshadowSpilledParams(env *Env) {
+	for _, blk := range x.fn.Blocks {
+		for _, in := range blk.Instrs {
+			if a, ok := in.(*ssa.Alloc); ok && a.Comment != "" {
+				if _, isParam := env.vars[a.Comment]; isParam {
+					if _, have := x.vals[a]; have {
+						delete(env.vars, a.Comment)
+					}
+				}
+			}
+		}
+	}
 }
 
 // resolveLocal finds the SSA value that holds source variable name at block b.
@@ -1082,14 +1100,41 @@ func (x *FnExec) havocLoop(h *ssa.BasicBlock, st *State, ls *LoopSpec, pre *Stat
 		}
 		return
 	}
-	// default: every heap that exists or could be written is unknown after the cut,
-	// except at addresses not yet allocated on loop entry... conservative: fully fresh.
+	// default: the heaps the loop body can write are unknown after the cut: the heaps of the
+	// cells stored to by its instructions and of the modifies clauses of the contracts it
+	// calls; everything if it calls code without a (precise) contract.
 	keys := map[string]bool{}
-	for k := range st.heaps {
-		keys[k] = true
+	all := false
+	for blk := range body {
+		for _, in := range blk.Instrs {
+			switch in := in.(type) {
+			case *ssa.Store:
+				el := in.Addr.Type().Underlying().(*types.Pointer).Elem()
+				for _, l := range x.leavesOfPtr(in.Addr, el) {
+					keys[l.Key] = true
+					x.heapBool[l.Key] = l.Bool
+				}
+			case *ssa.MapUpdate:
+				tk := typeKey(in.Map.Type())
+				keys["map:"+tk], keys["mapin:"+tk], keys["maplen:"+tk] = true, true, true
+			case ssa.CallInstruction:
+				if ks, ok := x.calleeWriteKeys(in.Common()); ok {
+					for _, k := range ks {
+						keys[k] = true
+					}
+				} else {
+					all = true
+				}
+			}
+		}
 	}
-	for k := range x.heapBool {
-		keys[k] = true
+	if all {
+		for k := range st.heaps {
+			keys[k] = true
+		}
+		for k := range x.heapBool {
+			keys[k] = true
+		}
 	}
 	old := map[string]Term{}
 	for _, k := range sortedKeys(keys) {
@@ -1115,6 +1160,7 @@ func (x *FnExec) havocLoop(h *ssa.BasicBlock, st *State, ls *LoopSpec, pre *Stat
 			x.restoreCells(st, old, l)
 		}
 	}
+	x.restoreImmutableGlobals(st, old)
 	// unescaped fresh objects that no instruction of the loop stores into keep their content
 	writtenAddr := map[Term]bool{}
 	for blk := range body {
@@ -1393,4 +1439,76 @@ func (x *FnExec) usesRecoverOrDefer() bool {
 		}
 	}
 	return false
+}
+
+// calleeWriteKeys: the heap keys a call can write according to the callee's contract;
+// ok=false when the callee is unknown or its contract says modifies *.
+func (x *FnExec) calleeWriteKeys(c *ssa.CallCommon) ([]string, bool) {
+	if b, ok := c.Value.(*ssa.Builtin); ok {
+		switch b.Name() {
+		case "append", "copy":
+			if len(c.Args) > 0 {
+				if sl, ok := c.Args[0].Type().Underlying().(*types.Slice); ok {
+					var ks []string
+					for _, l := range x.mem.Leaves(sl.Elem()) {
+						ks = append(ks, l.Key)
+						x.heapBool[l.Key] = l.Bool
+					}
+					return ks, true
+				}
+			}
+			return nil, false
+		case "delete":
+			tk := typeKey(c.Args[0].Type())
+			return []string{"mapin:" + tk, "maplen:" + tk}, true
+		}
+		return nil, true
+	}
+	name := ""
+	if c.IsInvoke() {
+		name = "(" + typeKey(c.Value.Type()) + ")." + c.Method.Name()
+		if x.eng.cs.Funcs[name] == nil && (x.eng.cs.KeeperIfaces[typeKey(c.Value.Type())] || x.eng.isPureDep(name)) {
+			return nil, true
+		}
+	} else if f := c.StaticCallee(); f != nil {
+		if f.Origin() != nil {
+			f = f.Origin()
+		}
+		name = f.String()
+		if x.eng.cs.Funcs[name] == nil && x.eng.isPureDep(name) {
+			return nil, true
+		}
+	} else if u, ok := c.Value.(*ssa.UnOp); ok {
+		if g, ok := u.X.(*ssa.Global); ok {
+			if f := x.eng.globalFuncInit(g); f != nil {
+				name = f.String()
+			}
+		}
+	}
+	con := x.eng.cs.Funcs[name]
+	if con == nil || con.ModAll {
+		return nil, false
+	}
+	var ks []string
+	for _, m := range con.Modifies {
+		switch m := m.(type) {
+		case *CIndex:
+			if id, ok := m.X.(*CIdent); ok && id.Name == "Big" {
+				ks = append(ks, "Big")
+				continue
+			}
+			return nil, false
+		case *CCall:
+			if m.Fn == "ghost" {
+				if id, ok := m.Args[0].(*CIdent); ok {
+					ks = append(ks, "ghost:"+id.Name)
+					continue
+				}
+			}
+			return nil, false
+		default:
+			return nil, false
+		}
+	}
+	return ks, true
 }
